@@ -141,21 +141,28 @@ def decFReq (tok : String) : Option FReq :=
   | [t, n] => match TyK.ofTok t, NodeK.ofTok n with
     | some t, some n => some { ty := t, node := n }
     | _, _ => none
+  | [t, n, "e"] => match TyK.ofTok t, NodeK.ofTok n with
+    | some t, some n => some { ty := t, node := n, nack := true }
+    | _, _ => none
   | _ => none
 
 def RecvErr.tok : RecvErr → String
-  | .none => "none" | .missingNode => "missing-node" | .badNode => "bad-node"
+  | .none => "none" | .missingNode => "missing-node" | .badNode => "bad-node" | .stream => "stream-error"
 
 def stepRecv (toks : List String) : String :=
   match toks with
   | ["recv", mode, items] =>
-    let reqs := if items == "-" then [] else (items.splitOn ";").filterMap decFReq
-    match recv reqs with
+    let toks := if items == "-" then [] else items.splitOn ";"
+    let endErr := toks.getLast? == some "ERR"
+    let reqs := toks.filterMap decFReq
+    match recvE endErr reqs with
     | .crash => "crash"
     | .done o =>
       let fwd := if o.fwd.isEmpty then "-" else ",".intercalate (o.fwd.map toString)
-      let tys := o.fwd.filterMap fun i => (reqs[i]?).map (·.ty)
-      let procs := (procSeq (mode == "delta") [] tys).map fun (t, c) =>
+      let tys := o.fwd.filterMap fun i => (reqs[i]?).map (fun r => (r.ty, r.nack))
+      let delta := mode == "delta" || mode == "deltaA"
+      let auth := mode == "sotwA" || mode == "deltaA"
+      let procs := (procSeq delta auth [] tys).map fun (t, c) =>
         s!"{t.tok}:{c.1}:{boolTok c.2.1}:{boolTok c.2.2}"
       let pr := if procs.isEmpty then "-" else ";".intercalate procs
       s!"fwd={fwd} err={o.err.tok} init={boolTok o.init} proc={pr}"
@@ -182,8 +189,8 @@ def stepDloop (p : PState) (toks : List String) : PState × String :=
   | ["cwant", add, remove] => go (.clientWant (decList add) (decList remove))
   | ["cflush"] => go .clientFlush
   | ["crecv", nack] => go (.clientRecv (decNack nack))
-  | ["srecv", n] => go (.serverRecv (dec n))
-  | ["spush", n, ok] => go (.serverPush (dec n) (tokBool ok))
+  | ["srecv", n, gen] => go (.serverRecv (dec n) (decList gen))
+  | ["spush", n, ok, gen] => go (.serverPush (dec n) (tokBool ok) (decList gen))
   | _ => (p, "bad-op")
 
 def stepP (p : PState) (toks : List String) : PState × String :=
